@@ -157,6 +157,10 @@ def make_class(case):
             opts[sw] = False
     if case.get("overflow"):
         opts["init_overflow_attr"] = OVERFLOW
+    if case.get("key") == "private" and case["private"]:
+        opts["key"] = "_hidden"  # a key that is not a managed attribute (private): it still gets no helpers
+    elif case.get("key") == "skipped" and (select == "skip" or select.endswith("+skip1")):
+        opts["key"] = "skipped"  # ... nor does a key listed in attrs_skip
     if select == "attrs":
         opts["attrs"] = [a for a, _ in attrs]
         if case.get("one_shot"):
@@ -326,7 +330,12 @@ def run_case(ctx, case):
     cls, pre, opts = make_class(case)
     occupied = dict(case["occupied"])
     try:
-        dec = spec_class(**opts)(cls)
+        decorator = spec_class(**opts)
+        if case.get("reuse_decorator"):
+            # one configured decorator object applied to two classes: what it learnt from the first class is not the second's
+            other = decorator(type("Other", (), {"__annotations__": {"zeta": int, "omegas": typing.List[int]}, "zeta": 1, "omegas": [1], "__module__": "vf.generated"}))
+            other.__spec_class__  # (bootstrap it first)
+        dec = decorator(cls)
         inst = None
         try:
             inst = dec() if "__init__" not in case["switches_off"] or "__init__" in case["user_dunders"] else dec.__new__(dec)
@@ -532,6 +541,10 @@ def enum_cases():
         for select, eager in itertools.product(["attrs", "attrs+skip0", "attrs+skip1", "attrs_only_first"], [True, False]):
             yield base_case(attrs, select=select, eager=eager, one_shot=True)
         for eager in (True, False):
+            yield base_case(attrs, eager=eager, reuse_decorator=True)
+            yield base_case(attrs, eager=eager, private=True, key="private")
+            yield base_case(attrs, eager=eager, select="skip", key="skipped")
+        for eager in (True, False):
             yield base_case(attrs, prep_scalars=True, eager=eager)
         for ud in (["__init__"], ["__repr__"], ["__eq__"], ["__new__"], ["__init__", "__repr__", "__eq__", "__new__"]):
             for eager in (True, False):
@@ -577,6 +590,10 @@ def case_strategy(draw):
         c["one_shot"] = True
     if src.chance(1, 5):
         c["overflow"] = True
+    if c["select"] == "annotations" and src.chance(1, 6):
+        c["reuse_decorator"] = True
+    if src.chance(1, 6):
+        c["key"] = src.pick(["private", "skipped"])
     c["switches_off"] = [s for s in ("init", "repr", "eq") if src.chance(1, 6)]
     c["user_dunders"] = [d for d in ("__init__", "__repr__", "__eq__", "__new__") if src.chance(1, 5)]
     names, err = expected_names(effective(c))
